@@ -271,7 +271,24 @@ pub fn run_plan(b: u64, plan: &Value, seed: u64) -> Value {
     };
     let live = snap.as_ref().map(|s| s.inflight.live).unwrap_or(0);
     let own_boot_active = snap.as_ref().map(|s| s.queries.iter().any(|q| q.target == s.id)).unwrap_or(false);
-    let r = json!({"e":"scenario","b":b,"plan":plan,"calls":out_calls,"tmax_ms":tmax / MS,"cadence_ms":sim.cfg.cadence_ms,
+    // replies the node may have PROCESSED 500 ms or more after their request was sent (only those may raise the
+    // timeout); a delivered datagram is read at the node's next tick, at most one cadence later
+    let mut sent_at: HashMap<(SocketAddrV4, Vec<u8>), u64> = HashMap::new();
+    let mut slow_replies = 0;
+    for r in &sim.log {
+        if let Some(m) = &r.msg {
+            if r.from == caddr && m.is_request() {
+                sent_at.insert((r.to, m.tid.clone()), r.sent_ns);
+            } else if r.to == caddr && !m.is_request() {
+                if let (Some(s), Some(d)) = (sent_at.get(&(r.from, m.tid.clone())), r.delivered_ns.first()) {
+                    if d - s + sim.cfg.cadence_ms * MS >= 500 * MS {
+                        slow_replies += 1;
+                    }
+                }
+            }
+        }
+    }
+    let r = json!({"e":"scenario","b":b,"plan":plan,"calls":out_calls,"tmax_ms":tmax / MS,"cadence_ms":sim.cfg.cadence_ms,"slow_replies":slow_replies,
         "panicked":sim.nodes[c].panicked,"hung":sim.nodes[c].hung,"leak":leak,"leak_desc":leak_desc,
         "inflight_live_at_quiescence": if own_boot_active { 0 } else { live }});
     sim.shutdown();
